@@ -29,6 +29,8 @@ type SchedCase struct {
 	Transport string `json:"transport,omitempty"` // "" = response function called directly
 	Name      string `json:"name"`
 	Bound     *int   `json:"bound,omitempty"` // overrides the property's deviation bound
+	// DefaultOnly: structural scenario, only the default schedule is run
+	DefaultOnly bool `json:"default_only,omitempty"`
 }
 
 func planOf(kv ...string) Plan {
@@ -55,6 +57,14 @@ func c06Cases(tier string) []SchedCase {
 	add(`{t{kids{name} ints}}`, planOf("t.kids[0]", "null"))
 	add(`{t{req name kid{name}}}`, planOf("t.req", "error", "t.name", "error", "t.kid.name", "error"))
 	add(`{t{kidReq{id} name}}`, planOf("t.kidReq", "null", "t.name", "error"))
+	// mirrored paths: an error at one alias, a silent null at the other
+	add(`{x:t{kidReq{id}} y:t{kidReq{id}}}`, planOf("x.kidReq", "error", "y.kidReq", "null"))
+	add(`{x:tReq{id} y:tReq{id}}`, planOf("x", "error", "y", "null"))
+	add(`{ts{x:peerReq{id}}}`, planOf("ts[0].x", "error", "ts[1].x", "null"))
+	// the request context ends mid-flight while resolvers keep returning their values
+	for _, q := range []string{`{t{name req kid{name req}}}`, `{ts{name kid{req}}}`, `{tReq{kidReq{req name}}}`} {
+		out = append(out, SchedCase{Case: Case{Op: Op{Text: q}, Yield: true, Cancel: true, IgnoreCancel: true}, Name: q + " | cancel ignored by resolvers"})
+	}
 	// a list whose elements have different concrete types, selecting the same response key
 	// through a shared occurrence and through type-specific fragments
 	add(`{peers{peer{id __typename x_id:id} ... on T{peer{... on T{name}}} ... on S{peer{... on S{title}}}}}`, planOf("peers[1]", "alt"))
@@ -90,6 +100,18 @@ func c05Cases(tier string) []SchedCase {
 	trs := []string{"", "post", "ws"}
 	if tier == "thorough" {
 		trs = append(trs, "sse", "mixed", "get")
+	}
+	zero := 0
+	// structural: nested fan-out at and above the worker limit (default schedule suffices)
+	for _, p := range []Plan{nil, planOf("t.kidsReq", "len3"), planOf("t.kidsReq[0].kids", "len3")} {
+		out = append(out, SchedCase{Case: Case{Op: Op{Text: `{t{kidsReq{kids{id}}}}`}, Plan: p, Yield: true}, Name: "nested lists " + p.Key(), DefaultOnly: true})
+	}
+	out = append(out, SchedCase{Case: Case{Op: Op{Text: `{t{kidsReq{kids{id kids{id}}}}}`}, Plan: planOf("t.kidsReq", "len3"), Yield: true}, Name: "nested lists three levels", DefaultOnly: true})
+	out = append(out, SchedCase{Case: Case{Op: Op{Text: `{ts{kidsReq{kids{id}}}}`}, Plan: planOf("ts", "len3"), Yield: true}, Name: "nested lists under ts", DefaultOnly: true})
+	// a serialization-time panic on every transport: the request ends and nothing is left running
+	for _, tr := range []string{"post", "sse", "mixed", "ws"} {
+		out = append(out, SchedCase{Case: Case{Op: Op{Text: `{t{boom name}}`}, Plan: planOf("marshal:boom@t", "panic"), Yield: true, Cancel: true}, Transport: tr, Name: tr + " marshal panic", Bound: &zero})
+		out = append(out, SchedCase{Case: Case{Op: Op{Text: `{t{id ... @defer{boom}}}`}, Plan: planOf("marshal:boom@t", "panic"), Yield: true, Cancel: true}, Transport: tr, Name: tr + " marshal panic in deferred payload", Bound: &zero})
 	}
 	// a websocket session that never initialises (InitTimeout set)
 	out = append(out, SchedCase{Case: Case{Op: Op{Text: `{str}`}, Yield: true, Cancel: true}, Transport: "ws-timeout", Name: "ws-timeout silent client"})
@@ -131,6 +153,9 @@ func c04Cases(tier string) []SchedCase {
 	add("", `{t{id ... @defer{name req}}}`, planOf("t.name", "panic"), true)
 	add("", `{t{id ... @defer{kid{name}} ... @defer(label:"b"){req}}}`, planOf("t.kid.name", "panic", "t.req", "error"), true)
 	add("", `{ts{id ... @defer{name}}}`, planOf("ts[0].name", "panic", "ts[1].name", "panic"), true)
+	add("", `{t{id ... @defer{req name}}}`, planOf("t.req", "error"), true)
+	add("", `{t{id ... @defer{req name}}}`, planOf("t.req", "panic"), true)
+	add("", `{ts{id ... @defer(label:"g"){kidReq{id}}}}`, planOf("ts[1].kidReq", "error"), true)
 	// concurrent siblings and list element goroutines panicking together
 	add("", `{t{name req kid{name}}}`, planOf("t.name", "panic", "t.kid.name", "panic"), true)
 	add("", `{ts{name req}}`, planOf("ts[0].req", "panic", "ts[1].name", "panic"), true)
@@ -234,6 +259,11 @@ func (si *schedInst) Obs() string {
 func (si *schedInst) Check(x *explore.Exec) (string, string) {
 	switch si.prop {
 	case "C06":
+		if si.Cancelled && strings.HasPrefix(si.S.W.Config, "worker-limit") {
+			// with a worker limit the generated code itself observes cancellation
+			// (semaphore acquisition fails): the response legitimately differs
+			return "", ""
+		}
 		sig, msg := si.Inst.CheckSemantics(x)
 		if sig != "" {
 			return sig, msg
@@ -247,7 +277,14 @@ func (si *schedInst) Check(x *explore.Exec) (string, string) {
 	case "C05":
 		return si.checkTermination(x)
 	case "C04":
-		return si.checkFaultScenario(x)
+		sig, msg := si.checkFaultScenario(x)
+		if sig == "" && si.sc.Transport == "" && strings.Contains(si.C.Op.Text, "@defer") {
+			// the payloads of a faulting deferred group must still fold to the plain result
+			if dsig, dmsg := si.checkDefer(x); dsig != "" && !si.S.deferKnown(dsig) {
+				return dsig, dmsg
+			}
+		}
+		return sig, msg
 	case "C13":
 		return si.checkDefer(x)
 	}
@@ -497,7 +534,7 @@ func (s *Shared) schedMain(prop, tier string) {
 				if errs != nil {
 					panic(fmt.Sprintf("corpus operation invalid: %s: %v", c.Op.Text, errs))
 				}
-				out = append(out, &explore.Scenario{Name: c.Name, Meta: c, Bound: c.Bound, New: func() explore.Instance {
+				out = append(out, &explore.Scenario{Name: c.Name, Meta: c, Bound: c.Bound, DefaultOnly: c.DefaultOnly, New: func() explore.Instance {
 					return &schedInst{Inst: s.NewInst(c.Case, doc), sc: c, prop: prop}
 				}})
 			}
@@ -554,3 +591,8 @@ func (si *schedInst) serveWebsocket(ctx context.Context, srv *handler.Server, pa
 }
 
 func (s *Shared) knownQuirk(sig string) bool { return strings.HasPrefix(sig, "quirk:") }
+
+// deferKnown: C13's known findings are not C04's subject.
+func (s *Shared) deferKnown(sig string) bool {
+	return sig == "defer:payload-before-its-object" || sig == "defer:payload-for-object-nulled-by-propagation"
+}
